@@ -206,6 +206,206 @@ def wait_lines(items: list[int], log: list[str]) -> list[str]:
     return [f"wait {','.join(map(str, items)) if items else '-'}"] + ['obs ' + e for e in log]
 
 
+_END = object()
+
+
+def blocking_case(spec: dict, loop: asyncio.AbstractEventLoop, timeout: float = 20.0) -> dict:
+    """Several `to_aiter(thread=True)` objects alive at once over iterables whose `next()` BLOCKS in its thread until the
+    consumer, reacting to an item of another source, lets it go on.  Real threads, plain asyncio loop `loop`.
+
+    spec: kinds[i] per source —
+            'event'   generator, item k waits on a threading.Event before it is yielded
+            'queue'   iter(queue.get, END): the consumer puts the item (and END after the source's last item was received)
+            'free'    a plain list (never blocks)
+            'reply:j' iter(queue.get, END) fed by the consumer: one reply per received item of source j, END after j's last
+          counts[i] items per source (for 'reply:j' the count of j);
+          order: the forced interleaving of the 'event'/'queue' sources (source indices, i occurring counts[i] times): the
+            p-th item of it is let go only when the consumer has received the (p-1)-th;
+          nap[i]: extra seconds every item of source i takes (a slow source); via: 'merge' (merge_aiters over all) or 'tasks'
+            (one `async for` task per wrapper).
+    Oracle: every item of every source exactly once, in the source's order, tagged with its source; everything finishes."""
+    import queue
+    import threading
+    import time
+    from nextline.utils.aio import merge_aiters, to_aiter
+    kinds, counts, order, via = spec['kinds'], spec['counts'], spec['order'], spec['via']
+    nap = spec.get('nap') or [0.0] * len(kinds)
+    m = len(kinds)
+    gated = [k in ('event', 'queue') for k in kinds]
+    evs = [[threading.Event() for _ in range(c)] for c in counts]
+    qs: list = [queue.Queue() for _ in range(m)]
+    feeds: dict = {}
+    for i, k in enumerate(kinds):
+        if k.startswith('reply:'):
+            feeds.setdefault(int(k[6:]), []).append(i)
+
+    def item(i: int, k: int) -> Any:
+        return 100 * i + k
+    expected: list = [[item(i, k) for k in range(c)] for i, c in enumerate(counts)]
+    for j, fed in feeds.items():
+        for i in fed:
+            expected[i] = [('reply', x) for x in expected[j]]
+    seq, nxt = [], [0] * m
+    for i in order:
+        seq.append((i, nxt[i]))
+        nxt[i] += 1
+    assert all(nxt[i] == counts[i] for i in range(m) if gated[i]) and not any(nxt[i] for i in range(m) if not gated[i]), spec
+
+    def ev_source(i: int) -> Any:
+        for k in range(counts[i]):
+            evs[i][k].wait()
+            if nap[i]:
+                time.sleep(nap[i])
+            yield item(i, k)
+
+    def q_source(i: int) -> Any:
+        if not nap[i]:
+            return iter(qs[i].get, _END)
+
+        def get() -> Any:
+            x = qs[i].get()
+            time.sleep(nap[i])
+            return x
+        return iter(get, _END)
+
+    def make(i: int) -> Any:
+        return ev_source(i) if kinds[i] == 'event' else list(expected[i]) if kinds[i] == 'free' else q_source(i)
+
+    def release(p: int) -> None:
+        if p < len(seq):
+            i, k = seq[p]
+            if kinds[i] == 'event':
+                evs[i][k].set()
+            else:
+                qs[i].put(item(i, k))
+
+    def release_all() -> None:
+        for i in range(m):
+            for e in evs[i]:
+                e.set()
+            for _ in range(counts[i] + 3):
+                qs[i].put(_END)
+    got: list = []
+    per: list = [[] for _ in range(m)]
+    nchain = [0]
+
+    def on_item(i: Any, x: Any) -> None:
+        got.append((i, x))
+        if not (isinstance(i, int) and 0 <= i < m):
+            return
+        per[i].append(x)
+        if kinds[i] == 'queue' and len(per[i]) == counts[i]:
+            qs[i].put(_END)
+        for r in feeds.get(i, []):
+            qs[r].put(('reply', x))
+            if len(per[i]) == counts[i]:
+                qs[r].put(_END)
+        if gated[i]:
+            nchain[0] += 1
+            release(nchain[0])
+    msgs: list = []
+    info: dict = {'finished': False, 'seconds': None}
+
+    async def main() -> None:
+        for i in range(m):
+            if counts[i] == 0 and kinds[i] not in ('event', 'free'):
+                qs[i].put(_END)
+        aits = [to_aiter(make(i), thread=True) for i in range(m)]
+        if via == 'merge':
+            async def collect() -> None:
+                async for i, x in merge_aiters(*aits):
+                    on_item(i, x)
+            tasks = [asyncio.ensure_future(collect())]
+        else:
+            async def one(i: int) -> None:
+                async for x in aits[i]:
+                    on_item(i, x)
+            tasks = [asyncio.ensure_future(one(i)) for i in range(m)]
+        t0 = time.monotonic()
+        release(0)
+        try:
+            done, pending = await asyncio.wait(tasks, timeout=timeout)
+        finally:
+            release_all()       # whatever happened: no thread may stay blocked (the check process has to be able to exit)
+        info['seconds'] = round(time.monotonic() - t0, 3)
+        info['finished'] = not pending
+        if pending:
+            old = loop.get_exception_handler()
+            loop.set_exception_handler(lambda l, c: None)   # the abandoned requests end after the release: nobody retrieves them
+            for t in pending:
+                t.cancel()
+            rest = [t for t in asyncio.all_tasks() if t is not asyncio.current_task()]
+            if rest:
+                await asyncio.wait(rest, timeout=10)
+            await asyncio.sleep(0.05)
+            for t in rest:
+                if t.done() and not t.cancelled():
+                    t.exception()       # mark retrieved (StopAsyncIteration of an abandoned request)
+            loop.set_exception_handler(old)
+        for t in done:
+            if not t.cancelled() and t.exception() is not None:
+                msgs.append(f'the consumer got {type(t.exception()).__name__}: {t.exception()}')
+    try:
+        loop.run_until_complete(main())
+    finally:
+        release_all()
+    return {'msgs': msgs, 'info': info, 'per': per, 'expected': expected, 'got': got, 'seq': seq}
+
+
+def blocking_verdict(spec: dict, r: dict, timeout: float) -> list:
+    msgs = list(r['msgs'])
+    per, expected, info = r['per'], r['expected'], r['info']
+    what = 'merge_aiters over' if spec['via'] == 'merge' else 'one consumer task per wrapper for'
+    head = (f"{what} {len(expected)} to_aiter(thread=True) sources {spec['kinds']} whose next() blocks until the consumer has received "
+            f"the preceding item of the forced interleaving {spec['order']}")
+    if not info['finished']:
+        msgs.insert(0, f'{head}: not finished after {timeout:.0f} s; delivered per source {per!r}, produced {expected!r}')
+    else:
+        for i, (p, e) in enumerate(zip(per, expected)):
+            if p != e:
+                msgs.append(f'{head}: source {i} produced {e!r} but {p!r} was delivered for it')
+        if len(r['got']) != sum(len(e) for e in expected):
+            msgs.append(f"{head}: {len(r['got'])} items delivered, {sum(len(e) for e in expected)} produced: {r['got']!r}")
+    return msgs
+
+
+def blocking_specs(rng: random.Random) -> list:
+    specs: list = []
+    for via in ('merge', 'tasks'):
+        # ping-pong: A's k-th item needs B's (k-1)-th received and B's k-th needs A's k-th; either source first
+        for kinds in (['event', 'event'], ['queue', 'queue'], ['queue', 'event']):
+            for first in (0, 1):
+                n = 4
+                specs.append({'shape': 'ping-pong', 'kinds': kinds, 'counts': [n, n], 'order': [first, 1 - first] * n, 'via': via})
+        # request-reply: the consumer answers every item of a source that never blocks into the queue another source blocks on
+        for kinds in (['reply:1', 'free'], ['free', 'reply:0'], ['reply:2', 'reply:2', 'free'], ['event', 'reply:0', 'free', 'reply:2']):
+            counts = [3 if k != 'event' else 2 for k in kinds]
+            for i, k in enumerate(kinds):
+                if k.startswith('reply:'):
+                    counts[i] = counts[int(k[6:])]
+            specs.append({'shape': 'request-reply', 'kinds': kinds, 'counts': counts, 'order': [i for i, k in enumerate(kinds) if k == 'event'
+                                                                                                    for _ in range(counts[i])], 'via': via})
+    # one slow source (every item takes a while and is let go only after the others are through): the others deliver everything meanwhile
+    for m, slow in ((3, 0), (3, 2), (4, 1)):
+        counts = [3] * m
+        counts[slow] = 2
+        others = [i for i in range(m) if i != slow]
+        order = [i for _ in range(3) for i in others] + [slow] * counts[slow]
+        nap = [0.0] * m
+        nap[slow] = 0.03
+        specs.append({'shape': 'one-slow', 'kinds': [rng.choice(['event', 'queue']) for _ in range(m)], 'counts': counts, 'order': order,
+                      'nap': nap, 'via': 'merge'})
+    # any forced interleaving
+    for _ in range(14):
+        m = rng.randint(2, 4)
+        kinds = [rng.choice(['event', 'queue']) for _ in range(m)]
+        counts = [rng.randint(0, 4) for _ in range(m)]
+        order = [i for i, c in enumerate(counts) for _ in range(c)]
+        rng.shuffle(order)
+        specs.append({'shape': 'random', 'kinds': kinds, 'counts': counts, 'order': order, 'via': rng.choice(['merge', 'merge', 'tasks'])})
+    return specs
+
+
 def _shard(cases: list) -> list:
     out = []
     for idx, kind, args, sched in cases:
@@ -247,7 +447,10 @@ def run(chk: common.Check) -> None:
     rng = chk.rng
     chk.cov.rule = ('merge_aiters: 0–4 sources × 0–4 items with per-call suspension patterns and consumer pauses, all schedules (DFS over the '
                     'permuting loop) for small configurations and seeded random schedules for larger ones; agen_with_wait: wrapped iterator '
-                    '+ tasks handed in by asend that succeed/fail after a set number of steps; to_aiter with and without thread. '
+                    '+ tasks handed in by asend that succeed/fail after a set number of steps; to_aiter with and without thread; '
+                    '2–4 thread-backed to_aiter sources alive at once whose next() blocks (Event.wait / Queue.get) until the consumer has '
+                    'received the preceding item of a forced interleaving (ping-pong, request-reply, one slow source, random orders), '
+                    'merged or consumed by one task each, real threads. '
                     'Observed label sequences are checked for acceptance by the Lean LTS. Non-trivial: at least two sources or one task; '
                     'distinct = distinct (configuration, observed label sequence).')
     chk.assumptions += ['asyncio.wait(FIRST_COMPLETED) returns, when the waiting task next runs, exactly the futures done by then (CPython)',
@@ -378,6 +581,41 @@ def run(chk: common.Check) -> None:
     asyncio.new_event_loop().run_until_complete(ta_reuse())
     asyncio.new_event_loop().run_until_complete(ta_cancel())
     chk.cov.count('kinds', 'to_aiter-request-cancelled')
+    # several thread-backed wrappers alive at once over iterables that block until another source (or the consumer reacting to another
+    # source's item) has made progress: ping-pong, request-reply, one slow source, random forced interleavings
+    blk_fail: list = []
+    blk_timeout = 20.0          # expected duration of one scenario: a few ms (≤ 0.2 s with a slow source)
+    blk_loop = asyncio.new_event_loop()
+    blk_specs = blocking_specs(rng)
+    ntimeouts = 0
+    for bi, spec in enumerate(blk_specs):
+        if ntimeouts >= 2:
+            # (each one that does not finish costs the whole time-out; the two reported ones are concrete failing inputs)
+            chk.cov.extra['to_aiter_blocking_not_run'] = len(blk_specs) - bi
+            common.log(f'C19: {len(blk_specs) - bi} further scenarios with blocking sources not run after two of them did not finish')
+            break
+        try:
+            r = blocking_case(spec, blk_loop, blk_timeout)
+            bmsgs = blocking_verdict(spec, r, blk_timeout)
+            seconds = r['info']['seconds']
+        except Exception as e:   # noqa
+            bmsgs = [f'scenario failed: blocking sources {spec}: {type(e).__name__}: {e}']
+            seconds = None
+            r = {'per': None, 'info': {'finished': None}}
+        if r['info']['finished'] is False:
+            ntimeouts += 1
+        chk.cov.case(('toaiter-blocking', repr(spec)), trivial=len(spec['kinds']) < 2)
+        chk.cov.count('kinds', 'to_aiter-blocking-' + spec['shape'])
+        chk.cov.count('kinds', 'to_aiter-blocking-via-' + spec['via'])
+        if seconds is not None:
+            chk.cov.extra['to_aiter_blocking_max_seconds'] = max(chk.cov.extra.get('to_aiter_blocking_max_seconds', 0), seconds)
+        if bmsgs:
+            blk_fail.append((('toaiter-blocking', spec, {'delivered_per_source': repr(r['per']), 'seconds': seconds}), [], bmsgs, None))
+    try:
+        blk_loop.run_until_complete(blk_loop.shutdown_default_executor(10))
+        blk_loop.close()
+    except Exception as e:   # noqa
+        common.log(f'C19: closing the loop of the blocking scenarios: {type(e).__name__}: {e}')
     model_out = None
     model_err = None
     all_lines = [ln for (_, lines, _, _) in rows for ln in lines] + [f"toaiter {','.join(map(str, l)) if l else '-'}" for l in ta]
@@ -411,6 +649,7 @@ def run(chk: common.Check) -> None:
                 rejected.append((('toaiter', l), [], 0, None))
     for m in ta_msgs:
         oracle_fail.append((('toaiter',), [], [m], None))
+    oracle_fail += blk_fail
     chk.cov.count('kinds', 'to_aiter', (len(ta) + len(ta_odd)) * 2)
     chk.cov.traces_validated = len(rows) if model_out is not None else 0
     if rows:
